@@ -132,6 +132,17 @@ class OptimizerModule:
 
         """
 
+        def contains_tensor(state: Any) -> bool:
+            if isinstance(state, torch.Tensor):
+                return True
+            if isinstance(state, OptimizerModule):
+                return contains_tensor(state.__dict__)
+            if isinstance(state, dict):
+                return any(contains_tensor(value) for value in state.values())
+            if isinstance(state, (list, tuple, set)):
+                return any(contains_tensor(value) for value in state)
+            return False
+
         def load_from_new_state_to_old_state(
             old_state: StateDict, new_state: StateDict
         ) -> StateDict:
@@ -165,11 +176,16 @@ class OptimizerModule:
                             old_state=old_value,
                             new_state=new_state[i],
                         )
-                        if store_non_tensors
-                        or isinstance(
-                            old_value,
-                            (torch.Tensor, dict, list, tuple, set, OptimizerModule),
+                        if (
+                            store_non_tensors
+                            or isinstance(
+                                old_value,
+                                (torch.Tensor, dict, list, tuple, set, OptimizerModule),
+                            )
                         )
+                        # An element that does not hold any tensor (e.g., an empty tuple) has no
+                        # entry in a flattened checkpoint, so there is nothing to load for it.
+                        and (i in new_state or contains_tensor(old_value))
                         else old_value
                     )
                     for i, old_value in enumerate(old_state)
